@@ -73,6 +73,11 @@ def plan(tier, seed):
     if tier == 'quick':
         stm = stm[:160]
     cases += [{'memstmt': stm[i:i + 40]} for i in range(0, len(stm), 40)]
+    # ... and the assembler's own options (c03 pool H, single options) on a small valid source
+    opts = [(oi, vi) for oi, (o, vals) in enumerate(c03.H_OPTS['asl']) for vi in range(len(vals))]
+    if tier == 'quick':
+        opts = rng.sample(opts, 12)
+    cases += [{'memopt': opts[i:i + 6]} for i in range(0, len(opts), 6)]
     only = os.environ.get('VERIF_C17_ONLY')       # development aid
     if only:
         cases = [c for c in cases if any(only in k for k in c)]
@@ -187,7 +192,40 @@ def run_memstmt(case, ctx):
     out.nontrivial = True
 
 
+def run_memopt(case, ctx):
+    from . import c03
+    out = ctx.out
+    os.makedirs(ctx.path('inc1'), exist_ok=True)
+    os.makedirs(ctx.path('inc2'), exist_ok=True)
+    ctx.write('inc1/a.inc', '\tnop\n')
+    ctx.write('inc2/a.inc', '\tnop\n\tnop\n')
+    ctx.write('a.inc', '\tbyt\t1\n')
+    ctx.write('in.asm', c03.H_ASL_SOURCE)
+    for oi, vi in case['memopt']:
+        o, vals = c03.H_OPTS['asl'][oi]
+        args = ['-i', 'inc1', '-i', 'inc2', o] + ([vals[vi]] if vals[vi] is not None else [])
+        r = ctx.run('valgrind', ['-q', '--error-exitcode=77', '--leak-check=no', ctx.bins['val:asl'], 'in.asm'] + args, timeout=300, retry=False)
+        if r.timed_out:
+            out.inconc('timeout: memcheck')
+            continue
+        err = r.err.decode('latin-1')
+        out.obs['memcheck_option_runs'] += 1
+        if r.rc == 77 or 'uninitialised' in err or 'Invalid read' in err or 'Invalid write' in err:
+            fn = '?'
+            for m in VG_FRAME.finditer(err):
+                if m.group(1) not in VG_SKIP and not m.group(1).startswith('_IO_') and (m.group(2) or '').split('.')[0] not in ('fileops', 'iofflush', 'iofwrite', 'genops'):
+                    fn = '%s@%s' % (m.group(1), m.group(2) or 'asl')
+                    break
+            vg = err[err.find('=='):] if '==' in err else err
+            out.violate('uninitialised-option:%s' % fn, 'asl in.asm %s: %s' % (' '.join(args), vg[:1200].replace('\n', ' | ')))
+        else:
+            out.sigs.add('memopt:%d:%d' % (oi, vi))
+    out.nontrivial = True
+
+
 def run_case(case, ctx):
+    if 'memopt' in case:
+        return run_memopt(case, ctx)
     if 'memcheck' in case:
         return run_memcheck(case, ctx)
     if 'memstmt' in case:
